@@ -50,6 +50,14 @@ def render(lang, cs, root=ROOT):
                 out.append("Note: Some input files use unchecked or unsafe operations.\nNote: Recompile with -Xlint:unchecked for details.\n")
             elif k == "summary":
                 out.append("%d error%s\n1 warning\n" % (max(nerr, 1), "" if nerr == 1 else "s"))
+            elif k == "crash" and c["m"] == 1:
+                out.append("Exception in thread \"main\" java.lang.StackOverflowError\n"
+                           "\tat jdk.compiler/com.sun.tools.javac.code.Types$SubstFcn.visitTypeVar(Types.java:3194)\n"
+                           "\tat jdk.compiler/com.sun.tools.javac.code.Types$SubstFcn.visitTypeVar(Types.java:3172)\n")
+            elif k == "crash" and c["m"] == 2:
+                out.append("An exception has occurred in the compiler (17.0.9). Please file a bug against the Java compiler.\n"
+                           "com.sun.tools.javac.util.ClientCodeException: java.lang.IllegalStateException: endPosTable already set\n"
+                           "\tat jdk.compiler/com.sun.tools.javac.api.ClientCodeWrapper$WrappedJavaFileManager.getJavaFileForOutput(ClientCodeWrapper.java:235)\n")
             elif k == "crash":
                 out.append("An exception has occurred in the compiler (17.0.9). Please file a bug against the Java compiler.\n"
                            "java.lang.NullPointerException: Cannot invoke \"com.sun.tools.javac.code.Type.getTag()\"\n"
